@@ -244,10 +244,16 @@ impl McnkChunk {
             None
         };
 
-        // MCMT has no dedicated offset in MCNK header
-        // Found via chunk discovery in _tex.adt files (Cataclysm+)
-        // TODO: Add split file support with chunk discovery
-        let materials = None;
+        // MCMT has no dedicated offset in MCNK header: located by its FourCC.
+        // A chunk of unexpected size is ignored rather than failing the whole tile.
+        let materials = {
+            let data = scan_for_subchunk(reader, mcnk_start_offset, mcnk_size, ChunkId::MCMT)?;
+            if !data.is_empty() {
+                McmtChunk::read_le(&mut std::io::Cursor::new(data)).ok()
+            } else {
+                None
+            }
+        };
 
         // ofs_refs points at MCRF in monolithic files and at MCRD/MCRW in Cataclysm+
         // split files: the FourCC found there decides which list it is.
@@ -388,10 +394,25 @@ impl McnkChunk {
             None
         };
 
-        // MCDD has no dedicated offset in MCNK header
-        // Found via chunk discovery in root ADT files (WoD+)
-        // TODO: Add chunk discovery support for MCDD
-        let doodad_disable = None;
+        // MCDD has no dedicated offset in MCNK header: located by its FourCC.
+        let doodad_disable = {
+            let data = scan_for_subchunk(reader, mcnk_start_offset, mcnk_size, ChunkId::MCDD)?;
+            if !data.is_empty() {
+                McddChunk::read_le(&mut std::io::Cursor::new(data)).ok()
+            } else {
+                None
+            }
+        };
+
+        // MCBB has no dedicated offset in MCNK header: located by its FourCC.
+        let blend_batches = {
+            let data = scan_for_subchunk(reader, mcnk_start_offset, mcnk_size, ChunkId::MCBB)?;
+            if !data.is_empty() {
+                Some(McbbChunk::read_le(&mut std::io::Cursor::new(data))?)
+            } else {
+                None
+            }
+        };
 
         Ok(Self {
             header,
@@ -409,7 +430,7 @@ impl McnkChunk {
             sound_emitters,
             liquid,
             doodad_disable,
-            blend_batches: None, // TODO: Parse MCBB from chunk discovery
+            blend_batches,
         })
     }
 
